@@ -63,7 +63,43 @@ def generate(seed: int, tier: str = "quick") -> dict:
     world, info = W.gen_world(rw, tier)
     program = W.gen_program(rp, world, info)
     faults = [{"kind": "frozen_burst", "bar": W.bar_of_row(info, info["frozen_row"])}]
+    _inject_negative_amounts(RNG.sub(seed, "faults"), program, faults)
     return {"property": ID, "seed": seed, "world": world, "program": program, "faults": faults, "info": info}
+
+
+def _is_number(x):
+    try:
+        return Decimal(x).is_finite()
+    except Exception:
+        return False
+
+
+def _inject_negative_amounts(rf, program, faults, rate=0.04):
+    """'all argument values': a few operations get one of their amounts negated (a negative literal, or a negative multiple of
+    what is held).  A market may refuse such a request or treat it as nothing; what it may not do is book it - a negative
+    amount that is accepted ends as a negative holding, as value created, or as a payout beyond the holding."""
+    for o in program:
+        if o["bar"] < 0 or o["op"].startswith("fz.broker") or rf.random() >= rate:
+            continue
+        a = o.get("a") or {}
+        fields = []
+        for k in sorted(a):
+            v = a[k]
+            if isinstance(v, dict) and ("x" in v or "abs" in v):
+                key = "x" if "x" in v else "abs"
+                if _is_number(v[key]) and Decimal(v[key]) > 0:
+                    fields.append((k, key))
+            elif isinstance(v, str) and k not in ("token", "view", "mode", "side", "name", "from", "to") and _is_number(v) and Decimal(v) > 0:
+                fields.append((k, None))
+        if not fields:
+            continue
+        k, key = rf.choice(fields)
+        if key is None:
+            a[k] = "-" + a[k]
+        else:
+            a[k] = dict(a[k])
+            a[k][key] = "-" + str(a[k][key])
+        faults.append({"kind": "negative_amount", "bar": o["bar"], "op": o["op"]})
 
 
 # ====================================================================================================== oracle
@@ -567,8 +603,10 @@ ASSUMPTIONS = [
     "swaps with a caller-chosen execution price (swap/buy/sell price=..., remove_liquidity sqrt_price_x96=...) are not generated; add_liquidity_by_tick with an "
     "explicit sqrt_price_x96 / tick is held to the one-sided bound only; broker.swap_by_from/to are called with the account's current price row",
     "broker.add_to_balance / subtract_from_balance are external cash flows: net value must change by exactly what the wallet received / paid",
-    "transfer_position_out/in and SqueethMarket.liquidate are protocol-internal entry points, not account operations, and are not generated; amounts are "
-    "non-negative (negative amounts belong to C04's rejection catalogue)",
+    "transfer_position_out/in and SqueethMarket.liquidate are protocol-internal entry points, not account operations, and are not generated",
+    "'all argument values': about 4 % of the market operations get one amount negated (negative literal or negative multiple of what is held); "
+    "the market may refuse it or treat it as nothing, the oracle is the same as for every other operation; broker.add_to_balance / "
+    "subtract_from_balance with a negative amount are not generated (they are the harness's external cash flows)",
     "the exact-conservation clause is applied to add/remove/collect (+ remove_all) and supply/withdraw/borrow/repay, accepted or rejected; the exact-fee clause "
     "to accepted Uniswap swap/buy/sell, Squeeth buy/sell (a swap in its pool) and broker swaps; everything else to the one-sided bound",
     "a run whose bar loop crashes outside an operation (market update) is not a C03 verdict; operations executed before the crash are still judged",
